@@ -461,6 +461,25 @@ Proof.
   destruct (reports_reported sites c Hr _ _ _ _ _ E F0 F1) as [e ->]. eauto.
 Qed.
 
+(* ---------------------------------------------------------------- the generated table of entry points *)
+Definition clean_call (c : cmd) : Prop :=
+  forall sites p s o s' p', run sites c p s = (o, s', p') ->
+    (handles s' = handles s /\ pending s' = pending s)
+    /\ (fired p = false -> fired p' = true -> exists e, o = Raised e)
+    /\ (forall sites2 q, run sites2 c q s' = run sites2 c q s).
+
+Theorem entries_clean : forall es : list entry, forallb entry_ok es = true ->
+    forall name mode skel, In (name, mode, skel) es -> clean_call (in_mode mode skel).
+Proof.
+  intros es Hall name mode skel Hin. rewrite forallb_forall in Hall.
+  specialize (Hall _ Hin). simpl in Hall. apply andb_true_iff in Hall as [Hs Hr].
+  unfold safe_in in Hs. unfold reports_in in Hr.
+  intros sites p s o s' p' H. split; [| split].
+  - eapply run_clean; eauto.
+  - eapply run_reported; eauto.
+  - eapply retry_as_first; eauto.
+Qed.
+
 (* ---------------------------------------------------------------- satisfiable, and the discipline is not vacuous *)
 (* the shape of the repaired HDF5 writer *)
 Definition ex_writer : cmd :=
